@@ -669,6 +669,14 @@ def gen_grid(repo, out):
             ev.fail(f, "use of TWO_PI changed")
         emit(name, ("(two_pi : T) " if pi else "") + AX, AXT, axes(v, f, ev), [f])
 
+    # ---- the constructors: `new(xsteps, ysteps)` must put the first tuple on the first (signal) axis and the second on the second
+    for cont, nm in (("FrequencySpace", "fs_new"), ("SumDiffFrequencySpace", "sd_new"), ("WavelengthSpace", "ws_new")):
+        f = ev.find("new", cont)
+        v, _, pre = run(f, cont, [TUP([T("x0"), T("x1"), N("nx")]), TUP([T("y0"), T("y1"), N("ny")])], None)
+        if pre:
+            ev.fail(f, "unexpected assertion")
+        emit(nm, AX, AXT, axes(v, f, ev), [f], f"{cont}::new((x0, x1, nx), (y0, y1, ny)) as (first axis, second axis)")
+
     # ---- the From impls between the spaces: each must be one of the named conversions (or the plain wrapper)
     from_impls = [
         ("FrequencySpace", "WavelengthSpace", "from_ws_for_fs", True), ("FrequencySpace", "SumDiffFrequencySpace", "from_sd_for_fs", False),
